@@ -20,7 +20,10 @@ def gen_case(rng, idx):
     # every third program has a head in which two same-shape parameters (often shared with a later task)
     # and the feature enter additively: autograd then hands ONE gradient object to the parameters and to
     # the feature cotangent, which whoever stores it without cloning corrupts by a later in-place +=
-    prog, feats, losses, tasks, shared = ajlib.gen_mtl(rng, alias=True if idx % 3 == 1 else None)
+    if idx % 6 == 4:
+        prog, feats, losses, tasks, shared = ajlib.gen_mtl_alias_pair(rng)
+    else:
+        prog, feats, losses, tasks, shared = ajlib.gen_mtl(rng, alias=True if idx % 3 == 1 else None)
     t = len(losses)
     leaves = [x for x in range(prog.n()) if prog.is_leaf[x] and prog.req[x]]
     calls = []
